@@ -2,7 +2,7 @@
 direct-stiffness assembly, closed-form cantilever)."""
 import numpy as np
 from ..runner import job
-from .. import gsx, term as S, spshim
+from .. import core, gsx, term as S, spshim
 from ..surfaces import surface
 from .c01_components import cls, T, POS, NODES
 from .c06 import RG
@@ -59,27 +59,28 @@ def element(env, ny):
     s = surface(name="wing", nx=2, ny=ny, symmetry=True, side="left")
     g = gsx.GroupSX(env, lambda m: m.add_subsystem("k", cls("structures.assemble_k_group.AssembleKGroup")(surface=s), promotes=["*"]))
     given = {p: env.var(p, g.free_shape(p)) for p in g.prom_inputs()}
-    vals = g.run(given)
-    klt = g.get(vals, "local_stiff_transformed")
-    tr = g.get(vals, "transform")
-    nodes = given["nodes"]
-    for e in range(ny - 1):
-        L, Rm = local_axes(env, nodes[e], nodes[e + 1])
-        RRt = matmul(env, Rm, Rm.T)
-        env.eq("C10", "local axes are orthonormal [element %d]" % e, RRt, np.eye(3))
-        env.eq("C10", "Transform: the 3x3 block of the real component is the documented direction-cosine matrix [element %d]" % e, tr[e][:3, :3], Rm)
-        Tm = np.empty((12, 12), dtype=object if env.sym else float)
-        Tm[...] = 0 * L
-        for k in range(4):
-            Tm[3 * k:3 * k + 3, 3 * k:3 * k + 3] = Rm
-        env.eq("C10", "Transform: block diagonal with four copies of the direction-cosine matrix [element %d]" % e, tr[e], Tm)
-        Kl = frame_element_local(env, s["E"], s["G"], given["A"][e], given["Iy"][e], given["Iz"][e], given["J"][e], L)
-        Kg = matmul(env, matmul(env, Tm.T, Kl), Tm)
-        env.eq("C10", "element stiffness in global axes == T^T K_local T of the textbook Euler-Bernoulli frame element [element %d]" % e, klt[e], Kg)
-        env.eq("C10,C02", "element stiffness in global axes is symmetric [element %d]" % e, klt[e], klt[e].T)
-    el = g.get(vals, "element_lengths")
-    d = nodes[1:] - nodes[:-1]
-    env.eq("C10", "element lengths == distance between consecutive nodes", el * el, (d * d).sum(axis=1))
+    for path, vals in env.explore(lambda: g.run(given)):
+        tag = (" @path(%s)" % ";".join("%s=%s" % (repr(c)[:50], "T" if bb else "F") for c, bb in path)) if path else ""
+        klt = g.get(vals, "local_stiff_transformed")
+        tr = g.get(vals, "transform")
+        nodes = given["nodes"]
+        for e in range(ny - 1):
+            L, Rm = local_axes(env, nodes[e], nodes[e + 1])
+            RRt = matmul(env, Rm, Rm.T)
+            env.eq("C10", "local axes are orthonormal [element %d]" % e + tag, RRt, np.eye(3))
+            env.eq("C10", "Transform: the 3x3 block of the real component is the documented direction-cosine matrix [element %d]" % e + tag, tr[e][:3, :3], Rm)
+            Tm = np.empty((12, 12), dtype=object if env.sym else float)
+            Tm[...] = 0 * L
+            for k in range(4):
+                Tm[3 * k:3 * k + 3, 3 * k:3 * k + 3] = Rm
+            env.eq("C10", "Transform: block diagonal with four copies of the direction-cosine matrix [element %d]" % e + tag, tr[e], Tm)
+            Kl = frame_element_local(env, s["E"], s["G"], given["A"][e], given["Iy"][e], given["Iz"][e], given["J"][e], L)
+            Kg = matmul(env, matmul(env, Tm.T, Kl), Tm)
+            env.eq("C10", "element stiffness in global axes == T^T K_local T of the textbook Euler-Bernoulli frame element [element %d]" % e + tag, klt[e], Kg)
+            env.eq("C10,C02", "element stiffness in global axes is symmetric [element %d]" % e + tag, klt[e], klt[e].T)
+        el = g.get(vals, "element_lengths")
+        d = nodes[1:] - nodes[:-1]
+        env.eq("C10", "element lengths == distance between consecutive nodes" + tag, el * el, (d * d).sum(axis=1))
 
 
 @job("c10.assembly", ("C10", "C02"), cfgs=[dict(ny=2, symmetry=True, yshift=0.0), dict(ny=3, symmetry=False, yshift=0.0), dict(ny=3, symmetry=False, yshift=2.5),
@@ -137,7 +138,10 @@ def cantilever(env, ny):
     xp = env.xp
     s = surface(name="wing", nx=2, ny=ny, symmetry=True, side="left")
     g = gsx.GroupSX(env, gsx.struct_model(s), key="S")
+    # documented exemption only: the mask |load| < 1e-6 N (constant threshold); any other masking of the loads is not exempt
     env.indicator_branch = 0
+    env.indicator_only = core.tiny_load_mask
+    env.add_ranges((r"^F|^M", 1e-3, 1e6, "log"))          # loads spread over many decades, all well above 1e-6 N
     w = s["fem_origin"]
     c = env.var("c", ())
     l = env.var("l", (ny - 1,))
@@ -175,16 +179,21 @@ def cantilever(env, ny):
             lam = env.var("lam", (6,))
             rows = [closed_form(-ys[j]) for j in range(ny)]
             return np.concatenate([np.concatenate(rows), lam])
-        vals = g.run(given, hints={"fem": hint})
-        r = g.solves[0]["residual_at_phi"]
-        free = r[:6 * (ny - 1)]
-        env.eq("C10", "closed-form cantilever displacements satisfy the equilibrium rows of every free node exactly (nodal exactness)", free, 0 * free)
-        env.eq("C10", "closed-form displacement vanishes at the clamped root (constraint rows)", r[6 * ny:], 0 * r[6 * ny:])
+
+        def run():
+            g.run(given, hints={"fem": hint})
+            return g.solves[0]["residual_at_phi"]
+        for path, r in env.explore(run):
+            tag = " @path(%d decisions)" % len(path) if path else ""
+            free = r[:6 * (ny - 1)]
+            env.eq("C10", "closed-form cantilever displacements satisfy the equilibrium rows of every free node exactly (nodal exactness)" + tag, free, 0 * free)
+            env.eq("C10", "closed-form displacement vanishes at the clamped root (constraint rows)" + tag, r[6 * ny:], 0 * r[6 * ny:])
         env.assumptions.add("non-singular clamped stiffness matrix (uniqueness of the displacements)")
     else:
         vals = g.run(given)
-        disp = g.get(vals, "disp")
-        for j in range(ny):
-            cf = closed_form(-ys[j])
-            env.eq("C10", "closed-form cantilever displacements satisfy the equilibrium rows of every free node exactly (nodal exactness)",
-                   np.asarray(disp[j]) * 1e9, np.asarray(cf, dtype=float) * 1e9)
+        disp = np.asarray(g.get(vals, "disp"), dtype=float)
+        cf = np.array([np.asarray(closed_form(-ys[j]), dtype=float) for j in range(ny)])
+        # compared in units of the largest closed-form displacement so that every component counts
+        sc = max(np.abs(cf).max(), 1e-300)
+        env.eq("C10", "closed-form cantilever displacements satisfy the equilibrium rows of every free node exactly (nodal exactness)",
+               disp[:ny] / sc * 1e3, cf / sc * 1e3)
